@@ -1,6 +1,6 @@
 (* C01TableProofs.v — every entry of leaf_table is lossless and yields a leaf whose name is the table key. *)
 From V.lib Require Import Base.
-From V.c01 Require Import C01Codec C01Model C01LeafProofs C01Leaf2Proofs C01Leaf3Proofs C01Leaf4Proofs.
+From V.c01 Require Import C01Codec C01Model C01LeafProofs C01Leaf2Proofs C01Leaf3Proofs C01Leaf4Proofs C01Leaf5Proofs.
 
 Definition entry_ok (e : list N * (hdr -> parser (leaf * rsvT))) : Prop :=
   leaf_lossless (snd e) /\
@@ -26,6 +26,13 @@ Proof.
       [injection E as <- _ _; reflexivity|]. nrun E. unfold pret in E. injection E as <- _ _. reflexivity.
 Qed.
 
+Lemma hvcC_name h r l rsv r' : dec_hvcC h r = Ok ((l, rsv), r') -> leaf_name l = n_hvcC.
+Proof.
+  intros H. unfold dec_hvcC in H. apply pbind_ok in H. destruct H as (data & r1 & _ & H).
+  destruct (hvcc_rec data) as [[[l0 rsv0] extra]| | |] eqn:E; try discriminate. injection H as <- <- <-.
+  unfold hvcc_rec in E. nrun E. unfold pret in E. injection E as <- _ _. reflexivity.
+Qed.
+
 Lemma elng_name h r l rsv r' : dec_elng h r = Ok ((l, rsv), r') -> leaf_name l = n_elng.
 Proof.
   intros H. unfold dec_elng in H. destruct (payload_len h <? 7).
@@ -48,15 +55,17 @@ Proof.
               | exact lossless_mfro | exact lossless_mehd | exact lossless_tfra | exact lossless_pssh
               | exact lossless_url | exact lossless_avcC | exact lossless_btrt | exact lossless_pasp | exact lossless_colr
               | exact lossless_clap | exact lossless_schm | exact lossless_cslg
-              | exact lossless_senc | exact lossless_emsg | exact lossless_elng | exact lossless_kind ];
+              | exact lossless_senc | exact lossless_emsg | exact lossless_elng | exact lossless_kind
+              | exact lossless_hvcC | exact lossless_subs ];
     intros h r l rsv r' Hn H;
     try (apply (avcC_name _ _ _ _ _ H));
+    try (apply (hvcC_name _ _ _ _ _ H));
     try (apply (elng_name _ _ _ _ _ H));
     try (unfold dec_mdat in H; destruct (rdB (payload_len h) r) as [[x r1]| | |]; injection H; intros; subst; reflexivity);
     unfold dec_ftyp, dec_free, dec_mfhd, dec_tfhd, dec_tfdt, dec_trun, dec_mvhd, dec_tkhd, dec_sidx, dec_trex, dec_mdhd,
       dec_hdlr, dec_stts, dec_stsc, dec_stsz, dec_tab, dec_sdtp, dec_ctts, dec_elst, dec_saiz, dec_saio, dec_sbgp, dec_prft,
       dec_tenc, dec_frma, dec_vmhd, dec_smhd, dec_fullonly, dec_mfro, dec_mehd, dec_tfra, dec_pssh,
-      dec_url, dec_btrt, dec_pasp, dec_colr, dec_clap, dec_schm, dec_cslg, dec_senc, dec_emsg, dec_kind in H;
+      dec_url, dec_btrt, dec_pasp, dec_colr, dec_clap, dec_schm, dec_cslg, dec_senc, dec_emsg, dec_kind, dec_subs in H;
     name_of H.
 Qed.
 
